@@ -45,6 +45,7 @@ REQUIRED = {
     "projections_checked": 100,
     "periodic_cylinders": 10,
     "batched_calls": 300,
+    "input_format_calls": 2000,
 }
 EPS = 2.220446049250313e-16
 
@@ -359,6 +360,31 @@ def run_shard(spec: dict) -> ShardResult:
         grid.normalize_point(arr, reflect=True)
         if not np.array_equal(arr, before):
             res.count("observation_normalize_point_mutates_input")
+
+        # ---- (7b) input formats: integer-valued points as lists / integer arrays ---------------
+        for c in cells[:4]:
+            pf = np.round(lo + c * dxs + rng.integers(-3, 4, size=len(shape)) * span)
+            forms = {"list of ints": [int(v) for v in pf], "int64 array": pf.astype(np.int64), "list of floats": [float(v) for v in pf]}
+            for reflect in (False, True):
+                want = np.array(grid.normalize_point(pf.copy(), reflect=reflect), dtype=float)
+                for fname, given in forms.items():
+                    try:
+                        have = np.array(grid.normalize_point(given, reflect=reflect), dtype=float)
+                    except Exception as exc:
+                        bad(f"normalize_point raised {type(exc).__name__} for a point given as {fname}: {str(exc)[:100]}", point=pf)
+                        continue
+                    if have.shape != want.shape or not np.array_equal(have, want):
+                        bad(f"normalize_point of a point given as {fname} differs from the same point given as float64 array", point=pf, have=have, want=want, reflect=reflect)
+                    res.count("input_format_calls")
+            q = lo + cells[0] * dxs
+            try:
+                d_int = float(grid.distance([int(v) for v in pf], q))
+                d_flt = float(grid.distance(pf.copy(), q))
+                if not (abs(d_int - d_flt) <= 64 * EPS * (abs(d_flt) + float(np.abs(pf).max()) + float(scale))):
+                    bad("distance of a point given as list of ints differs from the same point given as floats", point=pf, other=q, have=d_int, want=d_flt)
+                res.count("input_format_calls")
+            except Exception as exc:
+                bad(f"distance raised {type(exc).__name__} for a point given as list of ints: {str(exc)[:100]}", point=pf)
 
         # ---- (8) distances ----------------------------------------------------------
         for _ in range(10):
